@@ -55,3 +55,41 @@ Definition C19_case (fs : procfs) (prm : mparams) (regs : list region) (ops : li
   (list_eqb pout_eqb outs (prun fs prm (pinit regs) ops),
    epoch_ok fs prm regs ops outs [] None false,
    0).
+
+(* ---- end-to-end: a live victim process scanned through /proc (real page size) ----
+   One mapping of `len` bytes (offsets relative to its page-aligned base), the offsets at which the process
+   holds the needle (`present`, non-overlapping), and the offsets the scan reported (`found`). *)
+Definition e2e_chunks (prm : mparams) (len : N) : list (N * N) :=
+  walk (S (S (N.to_nat (len / page prm)))) prm
+       (pinit [{| r_start := 0; r_len := len; r_backed := false; r_foff := 0; r_file := [] |}]).
+
+Definition seen_in_chunk (prm : mparams) (n a : N) (c : N * N) : bool :=
+  (fst c <=? a) && (a + n <=? fst c + N.min (snd c) (round_page (max_fetch prm) (page prm))).
+
+Definition e2e_expected (prm : mparams) (len n : N) (present : list N) : list N :=
+  filter (fun a => existsb (seen_in_chunk prm n a) (e2e_chunks prm len)) present.
+
+Fixpoint strictly_ascending (l : list N) : bool :=
+  match l with
+  | a :: ((b :: _) as r) => (a <? b) && strictly_ascending r
+  | _ => true
+  end.
+
+Definition e2e_mapping_ok (prm : mparams) (n : N) (m : N * list N * list N) : bool * bool :=
+  let '(len, present, found) := m in
+  (list_eqb N.eqb found (e2e_expected prm len n present),
+   (* reported only where the process holds the bytes, once; what is missing straddles a chunk end or lies
+      beyond the fetch cap of its chunk *)
+   forallb (fun a => existsb (N.eqb a) present) found
+   && strictly_ascending found
+   && forallb (fun a => existsb (N.eqb a) found
+                        || existsb (fun c => ((fst c <=? a) && (a <? fst c + snd c))
+                                             && ((fst c + snd c <? a + n)
+                                                 || (fst c + N.min (snd c) (round_page (max_fetch prm) (page prm)) <? a + n)))
+                                   (e2e_chunks prm len))
+              present).
+
+Definition C19e_case (prm : mparams) (n : N) (maps : list (N * list N * list N)) : bool * bool * N :=
+  (forallb (fun m => fst (e2e_mapping_ok prm n m)) maps,
+   forallb (fun m => snd (e2e_mapping_ok prm n m)) maps,
+   0).
